@@ -101,6 +101,8 @@ class C07(UdpCheck):
             return self.gen_wrap(rng, tier, i)
         if i % 20 == 11:
             return self.gen_ackedge(rng, tier, i)
+        if i % 20 == 5:
+            return self.gen_burst(rng, tier, i)
         case = gen_traffic(rng, i, tier, retries=(0, 0, 1, -1, -1), cb_p=1.0)
         cfg, plan = case["cfg"], case["plan"]
         # (the message timeout is varied by gen_traffic, always above the worst RTT of the run)
@@ -120,6 +122,37 @@ class C07(UdpCheck):
             plan.append({"op": "forge", "global": True, "t": round(t0 + rng.random() * (t1 - t0), 4), "frm": frm, "to": to,
                          "type": rng.choice([1, 2, 4, 6]), "inner": [rng.choice([4, 6])] * rng.choice([0, 1, 2]),
                          "ack": "all"})
+        return case
+
+    def gen_burst(self, rng, tier, i):
+        """Delay only: everything one side sends during a window of 0.5-2 s is held back by the network and arrives together,
+        in order, when the window ends (a route flap, a radio link that stalls); afterwards the network is perfect. The
+        peer streams one datagram per tick the whole time (a large guaranteed message). Nothing was lost: the callbacks of
+        the large message and of sends made after the burst have to fire, with True, in bounded time."""
+        case = gen_traffic(rng, i, tier, nclients=1, n_msgs=2, long_latency=False, fault=False, entry=rng.choice(["bare", "twisted", "udpserver"]))
+        cfg = case["cfg"]
+        # (with a 1/60 s tick the sender's own 1/60 s send cap lets it emit on every second tick: 30 datagrams a second. A
+        # 30 fps application reads exactly as fast as they arrive; a 60 fps one twice as fast)
+        cfg["clients"][0]["dt"] = rng.choice([1 / 60, 1 / 30, 1 / 30])
+        cfg["server"]["interval"] = 1 / 60
+        cfg["latency"], cfg["jitter"] = rng.choice([0.005, 0.03]), 0.0
+        plan = [op for op in case["plan"] if op["op"] == "connect"]
+        for op in plan:
+            op.pop("on_connect", None)
+        big, small = rng.choice([("ssend", "send"), ("ssend", "send"), ("send", "ssend")])
+        frag = limits(cfg["mtu"])["frag"]
+        t0 = 1.5
+        nfr = rng.choice([300, 600])                       # 5-10 s of one datagram per tick
+        plan.append({"op": big, "c": 0, "t": t0, "len": frag * nfr, "kind": 0, "retry": -1, "cb": True, "api": "send"})
+        d = rng.choice([0.5, 1.0, 1.5, 2.0])
+        tb = t0 + 1.0
+        cfg["phases"] = [dict({"src": "S", "dst": "c0"} if big == "ssend" else {"src": "c0", "dst": "S"}, t0=tb, t1=tb + d, hold=True)]
+        for j in range(3):
+            plan.append({"op": small, "c": 0, "t": round(tb + d + 0.5 + j, 3), "len": rng.choice([5, 200]), "kind": 0, "retry": -1,
+                         "cb": True, "api": "send"})
+        cfg["t_heal"] = tb + d
+        cfg["duration"] = tb + d + nfr / 60.0 + 25.0
+        case["plan"] = plan
         return case
 
     def gen_wrap(self, rng, tier, i):
